@@ -64,7 +64,9 @@ func (b *builder) wrap(ctx string, level int, inner []hs.Stmt) []hs.Stmt {
 	tag := fmt.Sprintf("%d:%s", level, ctx)
 	pre := say(sl("in " + tag))
 	post := say(sl("after-inner " + tag))
-	body := append(append([]hs.Stmt{pre}, inner...), post)
+	// every level re-declares `keep`: a scope that an exit leaves behind would hide the outer `keep` (41) later
+	shadow := let("keep", il(int64(1000+level)))
+	body := append(append([]hs.Stmt{pre, shadow, say(sl("shadow "+tag), id("keep", hs.TInt))}, inner...), post)
 	switch ctx {
 	case "loop":
 		c := b.fresh("c")
